@@ -60,7 +60,7 @@ Proof.
     destruct (c_eof (wc w5 cid) || _).
     + eapply IH; eauto.
     + destruct (l_et (st w5) && _).
-      * eapply U_trigger; [|exact H5|exact E]. reflexivity.
+      * eapply U_trigger; [| |exact E]; [reflexivity|]. apply U_emit; [uoign|exact H5].
       * inversion E; subst. exact H5.
   - eapply (mu_close ls _ (MBU_all ls (S f))); eauto.
   - inversion E; subst. exact H4.
@@ -97,7 +97,7 @@ Proof.
   { destruct reply as [data|]; [|inversion E4; subst; exact H3].
     set (w3' := if c_udp (wc w3 cid) then w3 else _) in E4.
     assert (H3' : UINV RT w3').
-    { subst w3'. destruct (c_udp (wc w3 cid)); [exact H3|]. apply U_emit; [uoign|]. apply U_emit; [uoign|exact H3]. }
+    { subst w3'. destruct (c_udp (wc w3 cid)); [exact H3|]. apply U_emit; [uoign|exact H3]. }
     clearbody w3'.
     destruct (c_udp (wc w3 cid) && negb (c_remote (wc w3 cid))).
     - destruct (sys "sendto" _ w3') as [k w5] eqn:Es.
@@ -108,14 +108,12 @@ Proof.
       + pose proof (open_loop_inv cid (S (List.length (inp w3'))) data w3' H3') as H5.
         rewrite E4 in H5. exact H5. }
   clear E4.
-  assert (H4' : UINV RT (ghost "openreply-end" cid [] w4)) by (apply U_emit; [uoign|exact H4]).
-  set (w4e := ghost "openreply-end" cid [] w4) in *. clearbody w4e.
-  destruct (negb ok); [inversion E; subst; exact H4'|].
+  destruct (negb ok); [eapply (mu_close ls _ (MBU_all ls fuel)); eauto|].
   match type of E with (let '(r5, w5) := ?X in _) = _ => destruct X as [r5 w5] eqn:E5 end.
   assert (H5 : UINV RT w5).
-  { destruct (c_out (wc w4e cid)); [inversion E5; subst; exact H4'|].
-    destruct (l_et (st w4e)); [inversion E5; subst; exact H4'|]. eapply U_epctl; eauto. }
-  destruct r5; try (inversion E; subst; exact H5).
+  { destruct (c_out (wc w4 cid)); [inversion E5; subst; exact H4|].
+    destruct (l_et (st w4)); [inversion E5; subst; exact H4|]. eapply U_epctl; eauto. }
+  destruct r5; [|eapply (mu_close ls _ (MBU_all ls fuel)); [exact H5|exact E]..].
   destruct act; try (inversion E; subst; exact H5).
   eapply (mu_close ls _ (MBU_all ls fuel)); eauto.
 Qed.
@@ -229,16 +227,31 @@ Proof.
     unfold RPend. cbn [mkU u_pending u_cur u_want_send u_seen]. auto.
 Qed.
 
-Lemma el_read_udp_inv : forall fuel fd w r w',
-  UINV RT w -> el_read_udp fuel fd true w = (r, w') -> UINV RT w'.
+Lemma el_read_udp_inv : forall fuel fd is_listener w r w',
+  UINV RT w -> el_read_udp fuel fd is_listener w = (r, w') -> UINV RT w'.
 Proof.
-  intros fuel fd w r w' HI E. unfold el_read_udp in E.
+  intros fuel fd is_listener w r w' HI E. unfold el_read_udp in E.
   destruct (sys "recvfrom" _ w) as [k w1] eqn:Es.
   pose proof (U_recvfrom _ _ _ _ HI Es) as H1.
   destruct k as [n extra|e|];
     [|destruct (is_eagain e); inversion E; subst; exact H1|inversion E; subst; apply U_dead; exact H1].
   destruct (negb _ || _ || _) eqn:Emon; [inversion E; subst; dsync|].
   destruct extra as [|[?|d|?] [|a [|]]]; try discriminate Emon.
+  destruct is_listener.
+  2:{ (* a connected datagram socket: the pending datagram is dropped from the checker's view *)
+      destruct (alookup fd (l_reg (st w1))) as [cid|]; [|inversion E; subst; dsync].
+      set (w3 := emit _ (wsetc (ghost "udpconn" cid [] w1) cid _)) in E.
+      assert (H3 : UINV RT w3).
+      { subst w3. apply T_cb; [reflexivity|]. apply T_setc. unfold ghost.
+        eapply Inv_emit; [exact H1|reflexivity|].
+        intros [] x _ HR. cbn [ustep]. destruct (HR d a eq_refl) as (P1 & P2 & P3 & P4).
+        rewrite udp_step_noncb by reflexivity. rewrite P2. cbn [udp_step0].
+        eexists. split; [reflexivity|].
+        constructor; cbn [mkU u_pending u_cur u_want_send u_seen u_depth msem]; auto. }
+      clearbody w3.
+      destruct (handler fuel cid w3) as [[act rep] w4] eqn:Eh.
+      pose proof (T_handler _ _ _ _ _ H3 Eh) as H4.
+      destruct act; inversion E; subst; exact H4. }
   set (cid := l_next (st w1)) in *.
   set (w3 := emit _ (with_st w1 _)) in E.
   assert (H3 : UINV (RU (UCb cid O) None) w3).
@@ -279,10 +292,11 @@ Lemma dispatch_inv : forall fuel fd ev w r w', UINV RT w -> dispatch fuel fd ev 
 Proof.
   intros fuel fd ev w r w' HI E. unfold dispatch in E.
   destruct (alookup fd (l_reg (st w))) as [cid|].
-  - eapply process_io_inv; eauto.
+  - destruct (polopt (st w) && c_udp (wc w cid)); [eapply el_read_udp_inv; eauto|].
+    eapply process_io_inv; eauto.
   - destruct (alookup fd (l_listeners (st w))) as [is_udp|].
     + eapply el_accept_inv; eauto.
-    + eapply U_epctl; eauto.
+    + destruct (polopt (st w)); [inversion E; subst; exact HI|]. eapply U_epctl; eauto.
 Qed.
 
 Lemma run_task_inv : forall fuel t w r w', UINV RT w -> run_task fuel t w = (r, w') -> UINV RT w'.
@@ -421,8 +435,11 @@ Qed.
 Lemma polling_inv : forall fuel w, UINV RT w -> UINV RT (polling fuel w).
 Proof.
   induction fuel as [|f IH]; intros w HI; [cbn; dsync|]. rewrite polling_eq. cbv zeta.
-  assert (H0 : UINV RT (emit ("g", [ASym "count"; AInt (zlen (l_reg (st w))); ABytes []]) w))
+  assert (H00 : UINV RT (emit ("g", [ASym "count"; AInt (zlen (l_reg (st w))); ABytes []]) w))
     by (apply U_emit; [uoign|exact HI]).
+  set (wc0 := emit ("g", [ASym "count"; AInt (zlen (l_reg (st w))); ABytes []]) w) in *.
+  pose proof (Inv_pending_ign ustep (udp_step ls) tt _ _ (l_reg (st wc0)) wc0 ltac:(intros; uoign) H00) as H0.
+  unfold pending_fold in H0. clearbody wc0.
   destruct (pull _) as [[[name evs]|] w1] eqn:Ep.
   2:{ eapply U_pull_none; eauto. }
   destruct (T_pull_named _ _ _ _ _ "wait" ltac:(discriminate) ltac:(discriminate) ltac:(discriminate) H0 Ep) as [Hn Hd].
